@@ -724,6 +724,14 @@ func (g *Gen) genC15() {
 				break
 			}
 		}
+		if p.HasParams && p.Params != "" && r.P(20) {
+			// a quoted-string value (accepted by the parameter parser; letter case inside the quotes is case of a VALUE)
+			items := strings.Split(p.Params, ";")
+			k := r.N(len(items))
+			nv := strings.SplitN(items[k], "=", 2)
+			items[k] = nv[0] + "=\"" + r.Pick("Call-Me", "aB", "xY.z", "Q") + r.Alnum(0, 4) + "\""
+			p.Params = strings.Join(items, ";")
+		}
 		a := p.String()
 		q := *p
 		kind := "equivalent-variant"
@@ -779,6 +787,15 @@ func (g *Gen) genC15() {
 				}
 				q.Params = strings.Join(items, ";")
 				kind, expectEq = "param-value-differs", false
+			}
+		case 6: // a shared URI header with a different value, lists of equal length
+			if q.HasHeaders && q.Headers != "" {
+				items := strings.Split(q.Headers, "&")
+				k := r.N(len(items))
+				nv := strings.SplitN(items[k], "=", 2)
+				items[k] = nv[0] + "=" + "zz" + r.Alnum(1, 3)
+				q.Headers = strings.Join(items, "&")
+				kind, expectEq = "header-value-differs", false
 			}
 		case 3:
 			kind = "different"
@@ -1408,6 +1425,8 @@ func (g *Gen) genC19() {
 		method := methods[r.N(len(methods))]
 		if r.P(30) {
 			method = "INVITE"
+		} else if r.P(15) { // a method the library does not know (reported as 'other'; must still render as one hex digit)
+			method = r.Pick("PING", "FOOBAR", "KDMQ", "invite", "X", r.Alnum(1, 9))
 		}
 		fl := method + " " + r.URI() + " SIP/2.0\r\n"
 		fingerTypes := []int{3, 8, 4, 1, 6, 2, 5, 10}
